@@ -497,6 +497,10 @@ def build_image(img, rng, policy="decoy", mode="random"):
             # the last day of a year, to the next year)
             total = inst["ms"] + i * (400 + 37 * (i % 5))
             days, ms = divmod(total, 86_400_000)
+            if img["cross_midnight"] == "overflow" and table != "signal_data_record":
+                # the other encoding of the same instants: the day stays that of the first line
+                # and the millisecond counter runs past 86 400 000
+                days, ms = 0, total
             us = ms * 1000 + rng.randrange(1000)
             doy_i += days
             n_days = 366 if year_i % 4 == 0 else 365
